@@ -114,6 +114,15 @@ func configuredCases(tier string) []*space.Case {
 			out = append(out, sc)
 		}
 	}
+	{
+		// the nested message types are selected types too; options are keyed by the paths of their occurrences
+		nr := space.F5()[0]
+		nr.Cfg.Types = append(append([]string{}, nr.Cfg.Types...), "Shared", "Tiny", "Deep")
+		nr.Cfg.Exclude = []string{"Alpha.Meta.Label", "Beta.ByKey.Tiny", "Gamma.Deep.Tags"}
+		nr.Cfg.NameOverrides = map[string]string{"Beta.Meta.ID": "beta_meta_id", "Alpha.Items.Tiny.N": "alpha_item_n", "Delta.Nested.Meta.Tiny.On": "deep_on"}
+		nr.Label = "F5/nested-types-selected|path-options"
+		out = append(out, nr)
+	}
 	// recursive message graph cut by exclude_fields (README: the way to handle it)
 	node := &dsl.Message{Name: "Node", Fields: []*dsl.Field{
 		{Name: "Next", Num: 1, T: dsl.Msg, Ref: "Node"},
